@@ -89,8 +89,19 @@ func ScanZone(name string, loc *time.Location, from, to int64, crossCheck bool) 
 	z.offFirst = offsetAt(loc, from)
 	offs[z.offFirst] = true
 	for {
+		if cur.Unix() > to {
+			break
+		}
 		_, end := cur.ZoneBounds()
-		if end.IsZero() || end.Unix() > to {
+		if end.IsZero() || !end.After(cur) {
+			// no further period reported, or (seen beyond the last explicit
+			// transition of a zone that continues by rule, on the last day of a
+			// leap year) a period that does not advance: move on by a day. A
+			// change missed this way is caught by the cross-check below.
+			cur = cur.Add(24 * time.Hour)
+			continue
+		}
+		if end.Unix() > to {
 			break
 		}
 		e := end.Unix()
@@ -106,9 +117,6 @@ func ScanZone(name string, loc *time.Location, from, to int64, crossCheck bool) 
 			if e%60 != 0 {
 				z.badMinute[e/60] = true
 			}
-		}
-		if !end.After(cur) {
-			return nil, fmt.Errorf("zone %s: ZoneBounds does not advance at %v", name, cur)
 		}
 		cur = end
 	}
